@@ -39,6 +39,7 @@ func (c *ocodeClient) Emit(line string) error {
 		log.Printf("error: [ocode_client] cannot emit %q: %v", line, err)
 		return err
 	}
+	ocode.BitMode = int(c.ctx.BitMode)
 	c.Ocodes = append(c.Ocodes, ocode)
 	return nil
 }
